@@ -154,6 +154,10 @@ def i6_corpus(seed, tier):
         gs.append(('r%d' % i, genrun.fix_tags(g)))
     for i in range(4 if tier == 'quick' else 30):
         gs.append(('lay%d' % i, genrun.fix_tags(gram.layered_expr(rnd, nlev=rnd.randint(1, 2)))))
+    for i in range(2 if tier == 'quick' else 10):
+        gs.append(('long%d' % i, genrun.fix_tags(gram.long_rule_grammar(rnd))))
+    for i in range(3 if tier == 'quick' else 15):
+        gs.append(('dup%d' % i, genrun.fix_tags(gram.dup_rule_grammar(rnd))))
     for i in range(10 if tier == 'quick' else 60):
         g = gram.random_usable(rnd, nT=rnd.randint(2, 4), nN=rnd.randint(1, 3), max_alts=4, p_term=0.7)
         gs.append(('tw%d' % i, gram.twin_actions(genrun.fix_tags(g), rnd)))
@@ -164,6 +168,8 @@ def i6_corpus(seed, tier):
         L = 1
         while sum(nT ** k for k in range(L + 2)) <= budget and L < 7:
             L += 1
+        if nT > 8:
+            L = 1
         ins = [genrun.enc(s) for s in gram.all_strings(nT, L) if all(t < 25 for t in s)]
         sents = set()
         for _ in range(40 if tier == 'quick' else 150):
